@@ -331,7 +331,9 @@ func (st *c17State) encB(e *encode.Encoder, pi, meta int) []byte {
 	if err != nil {
 		return []byte("error:" + err.Error())
 	}
-	return append([]byte(nil), b...)
+	// the read-backs are results too
+	l0, l1 := e.LOD()
+	return append(append([]byte(nil), b...), []byte(fmt.Sprintf("|CSEL=%d NSEL=%d LOD=%08x,%08x hires=%v", e.CSel(), e.NSel(), f32b(l0), f32b(l1), e.HighResolutionCoordinates))...)
 }
 
 func (st *c17State) renB(z *render.Renderer, pi int) {
